@@ -337,6 +337,8 @@ pub struct Obs {
     pub max_recv_late: i64,
     /// largest wake-up lateness (µs) of the monitor thread while the case ran
     pub hb_stall: i64,
+    /// which sender session threads ended with a panic
+    pub panicked: Vec<bool>,
 }
 
 fn start(xml: String, marks: &Marks, executor: &FsmExecutor) -> Result<ScxmlSession, String> {
@@ -404,6 +406,7 @@ pub fn run_case(case: &Case, delays: &BTreeMap<usize, i64>, expect_n: usize, hb:
         }
     };
     let mut senders: Vec<ScxmlSession> = Vec::new();
+    obs.panicked = vec![false; 2];
     for s in 0..case.senders {
         match start(sender_xml(case, s, recorder.session_id), &marks, &executor) {
             Ok(sess) => senders.push(sess),
@@ -441,7 +444,7 @@ pub fn run_case(case: &Case, delays: &BTreeMap<usize, i64>, expect_n: usize, hb:
                 Ok(p) => {
                     joined.insert(i, us(Instant::now()));
                     if p {
-                        obs.problems.push(format!("sender {} panicked", o.sess));
+                        obs.panicked[o.sess] = true;
                     }
                 }
                 Err(()) => obs.problems.push(format!("sender {} did not terminate", o.sess)),
@@ -469,7 +472,7 @@ pub fn run_case(case: &Case, delays: &BTreeMap<usize, i64>, expect_n: usize, hb:
     }
     for (i, s) in senders.iter_mut().enumerate() {
         match join_with_timeout(s, Duration::from_secs(3)) {
-            Ok(true) => obs.problems.push(format!("sender {} panicked", i)),
+            Ok(true) => obs.panicked[i] = true,
             Err(()) => obs.problems.push(format!("sender {} did not stop", i)),
             _ => {}
         }
@@ -623,7 +626,8 @@ fn model_script(case: &Case, model: &mut Model) -> (String, BTreeMap<usize, i64>
         t += SLOT;
     }
     items.sort_by_key(|x| (x.0, x.1));
-    let script = items.into_iter().map(|x| x.2).collect::<Vec<_>>().join(";");
+    let headroom = chrono::DateTime::<chrono::Utc>::MAX_UTC.signed_duration_since(chrono::Utc::now()).num_milliseconds();
+    let script = format!("H,{};", headroom) + &items.into_iter().map(|x| x.2).collect::<Vec<_>>().join(";");
     (script, delays)
 }
 
@@ -632,12 +636,14 @@ pub struct ModelRun {
     /// (k, payload, session index) in delivery order
     pub deliveries: Vec<(usize, String, usize)>,
     pub errors: Vec<usize>,
+    /// the session thread panics (delay beyond chrono's date range)
+    pub crashed: Vec<bool>,
 }
 
 fn model_run(model: &mut Model, script: &str) -> Result<ModelRun, String> {
     let r = model.ask(&format!("timer run {}", script));
     let parts: Vec<&str> = r.split(' ').collect();
-    if parts.len() != 3 {
+    if parts.len() != 4 {
         return Err(r);
     }
     let mut deliveries = Vec::new();
@@ -656,7 +662,8 @@ fn model_run(model: &mut Model, script: &str) -> Result<ModelRun, String> {
         .split(',')
         .map(|x| x.parse::<usize>().unwrap_or(9999))
         .collect();
-    Ok(ModelRun { deliveries, errors })
+    let crashed = parts[3].strip_prefix("crash=").ok_or(r.clone())?.split(',').map(|x| x == "1").collect();
+    Ok(ModelRun { deliveries, errors, crashed })
 }
 
 fn oracle_request(case: &Case, obs: &Obs, delays: &BTreeMap<usize, i64>) -> String {
@@ -698,6 +705,16 @@ fn oracle_request(case: &Case, obs: &Obs, delays: &BTreeMap<usize, i64>) -> Stri
                 }
             }
             _ => {}
+        }
+    }
+    for sess in 0..case.senders {
+        if let Some((ci, cj)) = crash_point(case, delays, sess) {
+            if let OpKind::Send(ss) = &case.ops[ci].kind {
+                if let Some((pre, _, _)) = obs.sends.get(&ss[cj].k) {
+                    // the session thread dies somewhere after this stamp
+                    terms.push(format!("{},{},{}", sess, pre, obs.end_us));
+                }
+            }
         }
     }
     let recvs: Vec<String> = obs.recvs.iter().map(|(k, who, t, v)| format!("{},{},{},{}", k, who, t, if v.is_empty() { "_" } else { v })).collect();
@@ -788,6 +805,13 @@ pub fn gen_case(p: &mut Prng) -> Case {
                     k += 1;
                     continue;
                 }
+                if special < 16 && special >= 14 {
+                    // far in the future (never fires here) or beyond chrono's date range (the session thread panics)
+                    let delay = p.pick(&["8e15ms", "92000000000d", "9223372036854775807ms", "1e17ms", "99999999999d", "8.4e15ms", "2333333333333h"]).to_string();
+                    ss.push(SendSpec { k, id: if p.chance(1, 2) { Some("A".to_string()) } else { None }, delay, expr: true, to_self: false, var: true, loc: false });
+                    k += 1;
+                    continue;
+                }
                 if special < 14 {
                     let delay = p.pick(&["0s", "0ms", "", "5", "40", "0.4ms", "-0.4ms", "1.5.5s", "40 40ms", "40true"]).to_string();
                     let expr = !delay.is_empty() && p.chance(1, 2);
@@ -827,6 +851,14 @@ pub fn gen_case(p: &mut Prng) -> Case {
                 pending[sess].push((id.clone(), at + d));
                 ss.push(SendSpec { k, id, delay, expr: p.chance(1, 3), to_self: p.chance(1, 5), var: p.chance(3, 4), loc: p.chance(1, 7) });
                 k += 1;
+            }
+            // a session that panics in this block never reads its own external queue again: what it
+            // sends to itself here would be handed over (as the model says) but never observed
+            if ss.iter().any(|q| ["9223372036854775807ms", "1e17ms", "99999999999d", "8.4e15ms", "2333333333333h"].contains(&q.delay.as_str())) {
+                for q in ss.iter_mut() {
+                    q.to_self = false;
+                }
+                alive[sess] = false;
             }
             OpKind::Send(ss)
         } else if roll < 70 {
@@ -976,6 +1008,29 @@ pub fn corpus() -> Vec<(&'static str, Case)> {
                 sabotage: None,
             },
         ),
+        // a delay beyond chrono's date range panics the session thread; what was pending is discarded
+        (
+            "delay beyond the calendar",
+            Case {
+                senders: 2,
+                ops: vec![
+                    op(0, 0, OpKind::Send(vec![mk_send(0, Some("A"), "200ms"), mk_send(1, None, "40ms")])),
+                    op(1, 80, OpKind::Send(vec![mk_send(2, Some("A"), "200ms")])),
+                    op(
+                        0,
+                        160,
+                        OpKind::Send(vec![
+                            SendSpec { k: 3, id: None, delay: "8e15ms".into(), expr: true, to_self: false, var: true, loc: false },
+                            SendSpec { k: 4, id: None, delay: "9223372036854775807ms".into(), expr: true, to_self: false, var: true, loc: false },
+                            SendSpec { k: 5, id: None, delay: "0s".into(), expr: false, to_self: false, var: true, loc: false },
+                        ]),
+                    ),
+                    op(0, 240, OpKind::Send(vec![mk_send(6, None, "40ms")])),
+                ],
+                horizon: 360,
+                sabotage: None,
+            },
+        ),
         // not carried out / not delayed
         (
             "invalid and zero delays",
@@ -1026,27 +1081,60 @@ fn stalled(o: &Obs) -> bool {
 
 /// how many deliveries the *property* expects from the plan (ignoring what the model says about
 /// overwritten send ids): sends that are carried out, not cancelled and not cut off by termination
+/// a delay the model answers with a panic of the session thread (far beyond chrono's date range)
+const CRASH_MS: i64 = 8_300_000_000_000_000;
+
+/// (operation index, position in its block) of the first send of `sess` that panics
+fn crash_point(case: &Case, delays: &BTreeMap<usize, i64>, sess: usize) -> Option<(usize, usize)> {
+    for (i, o) in case.ops.iter().enumerate() {
+        if o.sess != sess {
+            continue;
+        }
+        if let OpKind::Send(ss) = &o.kind {
+            for (j, s) in ss.iter().enumerate() {
+                if *delays.get(&s.k).unwrap_or(&0) >= CRASH_MS {
+                    return Some((i, j));
+                }
+            }
+        }
+    }
+    None
+}
+
+/// how many deliveries the *property* expects from the plan (ignoring what the model says about
+/// overwritten send ids): sends that are carried out, not cancelled and not cut off by termination
 fn property_expected(p: &Prepared) -> usize {
     let case = &p.case;
     let mut n = 0;
-    for (sess, at, s) in case.sends() {
-        let d = *p.delays.get(&s.k).unwrap_or(&-1);
-        if d < 0 {
-            continue;
-        }
-        let due = at + d as u64;
-        let cut = case.ops.iter().any(|o| {
-            o.sess == sess
-                && o.at > at
-                && o.at < due
-                && match &o.kind {
-                    OpKind::Cancel(id) => s.id.as_deref() == Some(id.as_str()),
-                    OpKind::Term => true,
-                    _ => false,
+    for (i, o) in case.ops.iter().enumerate() {
+        let OpKind::Send(ss) = &o.kind else { continue };
+        let crash = crash_point(case, &p.delays, o.sess);
+        for (j, s) in ss.iter().enumerate() {
+            let d = *p.delays.get(&s.k).unwrap_or(&-1);
+            if d < 0 || d > 1_000_000 {
+                continue;
+            }
+            if let Some((ci, cj)) = crash {
+                // not executed any more / discarded with the panicking session
+                let crash_at = case.ops[ci].at;
+                if (ci, cj) <= (i, j) && (case.ops[ci].at < o.at || ci == i) || (crash_at >= o.at && crash_at < o.at + d as u64) {
+                    continue;
                 }
-        });
-        if !cut {
-            n += 1;
+            }
+            let due = o.at + d as u64;
+            let cut = case.ops.iter().any(|q| {
+                q.sess == o.sess
+                    && q.at > o.at
+                    && q.at < due
+                    && match &q.kind {
+                        OpKind::Cancel(id) => s.id.as_deref() == Some(id.as_str()),
+                        OpKind::Term => true,
+                        _ => false,
+                    }
+            });
+            if !cut {
+                n += 1;
+            }
         }
     }
     n
@@ -1090,7 +1178,19 @@ fn sequences(p: &Prepared, predicted: &ModelRun, obs: &Obs) -> ((Seqs, Vec<usize
             impl_err.push(*n);
         }
     }
-    ((model_seq, predicted.errors.clone()), (impl_seq, impl_err))
+    // the panic flags ride along with the error counts (1000 = panicked)
+    let mut model_err = predicted.errors.clone();
+    for (i, c) in predicted.crashed.iter().enumerate() {
+        if *c && i < model_err.len() {
+            model_err[i] += 1000;
+        }
+    }
+    for (i, c) in obs.panicked.iter().enumerate() {
+        if *c && i < impl_err.len() {
+            impl_err[i] += 1000;
+        }
+    }
+    ((model_seq, model_err), (impl_seq, impl_err))
 }
 
 fn matches_model(p: &Prepared, obs: &Obs) -> bool {
@@ -1125,7 +1225,7 @@ fn judge(p: &Prepared, out: &Outcome, model: &mut Model, rep: &mut Report) {
                     rep.count(if s.to_self { "send_to_self" } else { "send_to_recorder" });
                     rep.count(if s.loc { "payload_array_by_location" } else if s.var { "payload_variable" } else { "payload_constant" });
                     let d = *p.delays.get(&s.k).unwrap_or(&0);
-                    rep.count(if d < 0 { "delay_negative_or_invalid" } else if d == 0 { "delay_zero" } else { "delay_positive" });
+                    rep.count(if d < 0 { "delay_negative_or_invalid" } else if d == 0 { "delay_zero" } else if d >= CRASH_MS { "delay_beyond_calendar" } else if d > 1_000_000 { "delay_far_future" } else { "delay_positive" });
                 }
             }
             OpKind::Cancel(_) => rep.count("op_cancel"),
